@@ -291,6 +291,52 @@ fn run_case(mode: &str, input: &J) -> J {
                 Err(e) => json!({"err": format!("{}", e)}),
             }
         }
+        // program text -> the real translator's opcode sequence in a canonical text form
+        "ops" => {
+            use ucglib::build::opcode::{Hook, Op, Primitive};
+            let src = input.as_str().unwrap_or("");
+            let stmts = match parse_text(src) {
+                Ok(s) => s,
+                Err(e) => return json!({"err": e}),
+            };
+            let ops = ucglib::build::opcode::translate::AST::translate(stmts, &PathBuf::from("/nonexistent-wd"));
+            fn hx(s: &str) -> String {
+                let mut o = String::from("x");
+                for b in s.as_bytes() {
+                    o.push_str(&format!("{:02x}", b));
+                }
+                o
+            }
+            let v: Vec<String> = ops.ops.iter().map(|op| match op {
+                Op::Bind => "Bind".to_string(), Op::BindOver => "BindOver".to_string(), Op::Pop => "Pop".to_string(),
+                Op::NewScope(j) => format!("NewScope:{}", j),
+                Op::Add => "Add".into(), Op::Sub => "Sub".into(), Op::Div => "Div".into(), Op::Mul => "Mul".into(), Op::Mod => "Mod".into(),
+                Op::Equal => "Equal".into(), Op::Gt => "Gt".into(), Op::Lt => "Lt".into(), Op::GtEq => "GtEq".into(), Op::LtEq => "LtEq".into(),
+                Op::Not => "Not".into(),
+                Op::Val(Primitive::Int(i)) => format!("Val:Int:{}", i),
+                Op::Val(Primitive::Float(f)) => format!("Val:Float:{}", f.to_bits()),
+                Op::Val(Primitive::Str(s)) => format!("Val:Str:{}", hx(s)),
+                Op::Val(Primitive::Bool(b)) => format!("Val:Bool:{}", b),
+                Op::Val(Primitive::Empty) => "Val:Empty".into(),
+                Op::Cast(t) => format!("Cast:{}", t),
+                Op::Sym(s) => format!("Sym:{}", hx(s)), Op::DeRef(s) => format!("DeRef:{}", hx(s)),
+                Op::InitTuple => "InitTuple".into(), Op::Field => "Field".into(), Op::InitList => "InitList".into(),
+                Op::Element => "Element".into(), Op::Cp => "Cp".into(), Op::Bang => "Bang".into(),
+                Op::Jump(j) => format!("Jump:{}", j), Op::JumpIfTrue(j) => format!("JumpIfTrue:{}", j),
+                Op::JumpIfFalse(j) => format!("JumpIfFalse:{}", j), Op::SelectJump(j) => format!("SelectJump:{}", j),
+                Op::And(j) => format!("And:{}", j), Op::Or(j) => format!("Or:{}", j),
+                Op::Index => "Index".into(), Op::SafeIndex => "SafeIndex".into(), Op::Exist => "Exist".into(), Op::Noop => "Noop".into(),
+                Op::InitThunk(j) => format!("InitThunk:{}", j), Op::Module(j) => format!("Module:{}", j), Op::Func(j) => format!("Func:{}", j),
+                Op::Return => "Return".into(), Op::FCall => "FCall".into(), Op::Typ => "Typ".into(),
+                Op::Runtime(h) => format!("Runtime:{}", match h {
+                    Hook::Map => "Map", Hook::Include => "Include", Hook::Filter => "Filter", Hook::Reduce => "Reduce",
+                    Hook::Import => "Import", Hook::Out => "Out", Hook::Assert => "Assert", Hook::Convert => "Convert",
+                    Hook::Regex => "Regex", Hook::Range => "Range", Hook::Trace(_) => "Trace" }),
+                Op::Render => "Render".into(), Op::PushSelf => "PushSelf".into(), Op::PopSelf => "PopSelf".into(),
+                Op::CheckConstraint => "CheckConstraint".into(), Op::BuildConstraint(_) => "BuildConstraint".into(),
+            }).collect();
+            json!({"ok": v.join(" ")})
+        }
         // text -> outcome of every stage, each under its own catch_unwind
         "stages" => {
             let src = input.as_str().unwrap_or("").to_string();
